@@ -388,6 +388,8 @@ def apply_backend(backend, refs, vals, op, model_before=None):
                                             m.invocation_metadata.fn_reference_with_args.arg_hash] for m in ms]
         if k == "wmetad":  # metadata stored next to the data object
             _, f, a, mk, mv = op
+            if model_before is not None and (f, a) not in model_before:
+                return "skipped"  # (like wmeta: metadata is written for existing mementos only)
             m = backend.get_memento(refs.fwah(f, a))
             backend.write_metadata(refs.fwah(f, a), mk, mv.encode(),
                                    store_with_content_key=(m.content_key if m is not None else None))
